@@ -266,6 +266,9 @@ func GenXMPRec(r *core.Rng, density int, maxLen int) *XMPRec {
 			if r.Chance(1, 10) {
 				n = r.Range(5, 30)
 			}
+			if r.Chance(1, 8) {
+				n = 0 // a zero-item array (written as <rdf:Bag/> or <rdf:Bag></rdf:Bag>)
+			}
 			vals := make([]string, n)
 			for i := range vals {
 				vals[i] = XText(r, xLen(r, maxLen))
@@ -296,6 +299,9 @@ type XMPStyle struct {
 	LangAttr    bool   // xml:lang on alt items
 	PadBeforeGT int
 	EndTagWS    string // white space between the name and '>' of end tags (legal XML: "</a:b >")
+	// EmptyArrSelfClose writes zero-item arrays as an empty-element tag (<rdf:Bag/>), as the
+	// Adobe toolkit does, instead of <rdf:Bag></rdf:Bag>.
+	EmptyArrSelfClose bool
 }
 
 // RandXMPStyle draws a style. exotic enables TAB / CR LF separators.
@@ -345,6 +351,7 @@ func RandXMPStyle(r *core.Rng, exotic bool) XMPStyle {
 			st.EndTagWS = r.PickStr(" ", "\n", "\t ", "\r\n", "   ")
 		}
 	}
+	st.EmptyArrSelfClose = r.Bool()
 	st.Unknown = r.Pick(0, 0, 1, 3, 8)
 	st.SplitDesc = r.Chance(1, 4)
 	st.SelfClose = r.Chance(1, 3)
@@ -422,6 +429,11 @@ func (rec *XMPRec) Serialise(r *core.Rng, st XMPStyle, forceForm int) []byte {
 			default:
 				cont := map[string]string{"seq": "Seq", "bag": "Bag", "alt": "Alt"}[p.Kind]
 				var b strings.Builder
+				if len(p.Values) == 0 && st.EmptyArrSelfClose {
+					fmt.Fprintf(&b, "<%s:%s>%s%s<rdf:%s/>%s</%s:%s%s>", p.NS, p.Name, st.NL, st.Indent, cont, st.NL, p.NS, p.Name, st.EndTagWS)
+					elems = append(elems, b.String())
+					continue
+				}
 				fmt.Fprintf(&b, "<%s:%s>%s%s<rdf:%s>%s", p.NS, p.Name, st.NL, st.Indent, cont, st.NL)
 				for i, v := range p.Values {
 					if p.Kind == "alt" && st.LangAttr {
